@@ -80,6 +80,20 @@ func load() {
 // ResetNative clears the per-run native state.
 func ResetNative() { Failed, ReachedL, ObservedL, AssumeFail = nil, nil, nil, false }
 
+// LoadReplayFile (re)loads the assignment from the given file.
+func LoadReplayFile(path string) {
+	loaded = true
+	replay = replayFile{Model: map[string]uint64{}}
+	b, err := os.ReadFile(path)
+	if err != nil {
+		panic(err)
+	}
+	if err := json.Unmarshal(b, &replay); err != nil {
+		panic(err)
+	}
+	ResetNative()
+}
+
 func sanitize(s string) string {
 	var sb strings.Builder
 	for _, c := range s {
